@@ -131,7 +131,12 @@ def evalExtremum (isMax : Bool) (args : List (Res F)) : Res F :=
     | .error e => errArr e
     | .ok [] => .arr [[.num Num.zero]]
     | .ok (x :: xs) =>
-      .arr [[match pickExtremum isMax x xs with | .num v => convertNan v | r => r]]
+      -- the result is the Python object `max`/`min` returns: a text result is a `str` scalar
+      -- (and is treated like a literal by an enclosing function), a number behaves like an array
+      match pickExtremum isMax x xs with
+      | .num v => .arr [[convertNan v]]
+      | .text s => .scalar (.text s)
+      | r => .arr [[r]]
 
 /-- `COUNT`: numbers inside arrays, numbers / logicals / numeric text among literals; errors are not raised -/
 def evalCount (args : List (Res F)) : Res F :=
